@@ -64,7 +64,7 @@ def case_divcurl(shape, reset, comp):
             if np.any(bad):
                 cell = tuple(int(i) + 2 for i in np.argwhere(bad)[0])
                 fails.append(Fail("divcurl", "discrete divergence of the discrete curl is not zero", impulse_component=c, impulse_cell=idx, at=cell, value=d[cell], reset=reset))
-    if nonzero_curl == 0:
+    if nonzero_curl == 0 and not fails:
         from harness.interp import HarnessError
 
         raise HarnessError("C12 divcurl vacuous: curl of every impulse is zero")
@@ -102,7 +102,7 @@ def case_2d(shape):
             seen_nonzero += int(np.any(lap != 0))
             states += 1
             trans += 2
-    if seen_nonzero == 0:
+    if seen_nonzero == 0 and not fails:
         from harness.interp import HarnessError
 
         raise HarnessError("C12 2d vacuous")
@@ -155,7 +155,7 @@ def case_update(dim, shape):
                 fails.append(Fail(f"update{s}:penalised-vs-forcing", "update_from_penalised(w, up, u, p) != update_from_forcing(w, up - u, p)", component=c, impulse=idx))
             states += 1
             trans += 3
-    if nz == 0:
+    if nz == 0 and not fails:
         from harness.interp import HarnessError
 
         raise HarnessError("C12 update vacuous")
